@@ -72,10 +72,27 @@ def r06a(ctx):
                              nontrivial=len(lst) >= 3, line=lst[0][0].node.lineno)
 
 
+def _vt_var(f: FuncInfo) -> str:
+    """The local (or parameter) of f that holds the ODF value type: the parameter `value_type`, else the local read from / written to a
+    `…:value-type` attribute."""
+    if any(a.arg == "value_type" for a in f.all_params()):
+        return "value_type"
+    for n in walk_no_nested(f.node):
+        if isinstance(n, ast.Assign) and len(n.targets) == 1 and isinstance(n.targets[0], ast.Name) and isinstance(n.value, ast.Call) \
+                and call_name(n.value) in GET_ATTR and n.value.args and isinstance(n.value.args[0], ast.Constant) and str(n.value.args[0].value).endswith("value-type"):
+            return n.targets[0].id
+    for n in walk_no_nested(f.node):
+        if isinstance(n, ast.Call) and call_name(n) == "set_attribute" and len(n.args) == 2 and isinstance(n.args[0], ast.Constant) \
+                and str(n.args[0].value).endswith("value-type") and isinstance(n.args[1], ast.Name):
+            return n.args[1].id
+    return "value_type"
+
+
 def _type_arms(ctx, f: FuncInfo, var: str):
     """[(types, default value_type, encoders, arm)] of the isinstance chain on `var` in f."""
     repo = ctx.repo
     out = []
+    vtv = _vt_var(f)
     for chain in if_chains(f.node):
         rows = []
         for arm in chain:
@@ -86,7 +103,7 @@ def _type_arms(ctx, f: FuncInfo, var: str):
             for n in arm.body:
                 for a in walk_no_nested(n):
                     if isinstance(a, ast.Assign) and len(a.targets) == 1 and isinstance(a.targets[0], ast.Name) \
-                            and a.targets[0].id == "value_type" and isinstance(a.value, ast.Constant):
+                            and a.targets[0].id == vtv and isinstance(a.value, ast.Constant):
                         vt = a.value.value
             rows.append((it[1], vt, codec_calls(arm.body, "encode"), arm))
         if len(rows) >= 4:
@@ -181,7 +198,7 @@ def r06b(ctx):
     if stale:
         ctx.report("R06b", w, w.node, f"not cleared: {sorted(stale)}",
                    "attribute written for one value type is not removed when the value is replaced by another type")
-    readers = [(repo.func("ElementTyped._get_typed_value"), "value_type"), (repo.func("Cell.value", "getter"), "value_type")]
+    readers = [(rf_, _vt_var(rf_)) for rf_ in (repo.func("ElementTyped._get_typed_value"), repo.func("Cell.value", "getter"))]
     for rf, var in readers:
         rtab = _reader_table(ctx, rf, var)
         if len(rtab) < 5:
@@ -214,7 +231,7 @@ def r06b(ctx):
             ctx.instance("R06b", f"{rf.file}:{rf.ident}", f"value type {vt}: attribute + codec agreement with writer", ok=ok,
                          nontrivial=True, line=rtab[vt][4].node.lineno if vt in rtab else None)
     # numbers: the readers convert the stored text exactly (Decimal), never through float
-    for rf, var in readers + [(repo.func("Meta._get_meta_value_full"), "value_type")]:
+    for rf, var in readers + [(repo.func("Meta._get_meta_value_full"), _vt_var(repo.func("Meta._get_meta_value_full")))]:
         for consts, arm in const_dispatch(rf, var, repo):
             if "float" not in consts:
                 continue
@@ -248,7 +265,7 @@ def r06b(ctx):
                 lits = {n.value for s in arm.body for n in ast.walk(s) if isinstance(n, ast.Constant) and isinstance(n.value, str)}
                 if {"true", "false"} <= lits:
                     menc[vt].add("Boolean")
-    mtab = _reader_table(ctx, mr, "value_type")
+    mtab = _reader_table(ctx, mr, _vt_var(mr))
     for vt in sorted(menc):
         ok = True
         if vt not in mtab:
